@@ -252,7 +252,7 @@ func checkC11(c *Ctx) {
 		}{{subsDP, "Subscriptions.DeletePeer"}, {sessDP, "SessionMetadatas.DeletePeer"}} {
 			found := false
 			reach := c.P.Reach([]*ssa.Function{leave}, func(from *ssa.Function, cl *core.Call, to *ssa.Function) bool {
-				return hasAncestor(to, leave)
+				return hasAncestor(to, leave) || (to.Package() == leave.Package() && (cl == nil || !cl.Invoke))
 			})
 			for f := range reach {
 				for _, cl := range core.CallsTo(f, t.obj) {
